@@ -205,8 +205,18 @@ C14Decls(r) ==
                      IF expl \/ (i > 1 /\ vals[p[i]] # vals[p[IF i > 1 THEN i - 1 ELSE 1]] + 1) \/ (i = 1 /\ vals[p[1]] # 0) THEN "lit" ELSE "implicit",
                      vals[p[i]], "dec", NamePool[((p[i] * k + i * j) % 10) + 1])]) :
             p \in Perms(n), k \in 1..3, j \in 0..1, expl \in BOOLEAN, vals \in C14Vals(r)} : n \in 1..4}
+\* long names: byte-wise order must not be decided by a fixed-size prefix, a hash or the length -- names that share
+\* their first L bytes (L around the sizes of machine words and small buffers) and differ after them, or are prefixes
+\* of each other: x^L b, x^L ab, x^L, x^L a   (ascending: x^L < x^L a < x^L ab < x^L b)
+Rep(c, L) == [i \in 1..L |-> c]
+LongPool(L) == <<Rep(120, L), Rep(120, L) \o <<97>>, Rep(120, L) \o <<97, 98>>, Rep(120, L) \o <<98>>>>
+LongLens == {3, 7, 8, 15, 16, 17, 31, 32, 33, 64}
+C14LongDecls(r) ==
+  {Enum(r, [i \in 1..Len(q) |-> Var(i, "unit", "implicit", 0, "dec", LongPool(L)[q[i]])]) :
+     q \in {<<a, b>> : a, b \in 1..4} \cup {<<a, b, c>> : a, b, c \in 1..4}, L \in LongLens}
 C14All(r) ==
   {Case("C14", d, SortedCfg(q), "sorted") : d \in C14Decls(r), q \in SortedReqs}
+  \cup {Case("C14", d, SortedCfg(q), "sorted, long names with common prefixes") : d \in C14LongDecls(r), q \in {<<"name">>}}
   \cup {Case("C14", d, AllAuto({"as_str"}), "no sorted: any order") : d \in {x \in C14Decls(r) : Len(x.variants) = 3}}
 
 \* ---- the state space: one state per case ----------------------------------------------------------
